@@ -169,8 +169,8 @@ def run_gen(case, bus, ex):
         bus.judge("deterministic", 0.0 if differ else 1.0, 0.5, sig + ("different keys differ",), witness=dict(info, keys=ks[:2]))
 
 
-def run_invalid(case, bus, ex):
-    D = case["D"]
+def invalid_trials(ex, D):
+    """Documented-invalid option combinations of the IC generators: (label, thunk that must raise ValueError)."""
     ic = ex.ic
     trials = [("TFS zero_mean False + std_one", lambda: ic.RandomTruncatedFourierSeries(D, offset_range=(0.5, 1.0), std_one=True)),
               ("TFS std_one + max_one", lambda: ic.RandomTruncatedFourierSeries(D, std_one=True, max_one=True)),
@@ -188,7 +188,12 @@ def run_invalid(case, bus, ex):
               ("RandomSineWaves1d std_one + max_one", lambda: ic.RandomSineWaves1d(1, std_one=True, max_one=True))]
     if D > 1:
         trials.append(("RandomSineWaves1d in D>1", lambda: ic.RandomSineWaves1d(D)))
-    for lab, fn in trials:
+    return trials
+
+
+def run_invalid(case, bus, ex):
+    D = case["D"]
+    for lab, fn in invalid_trials(ex, D):
         try:
             fn()
             bus.flag("rejects_invalid", f"{lab}: accepted", (lab, D), witness=dict(what=lab, D=D))
